@@ -27,13 +27,16 @@ LEVEL_TEXT = ("Machine-checked proof (Coq, closed under the global context) over
               "out-of-fuel: termination), the only outcomes are return / socket.error / socket.timeout / asleep in "
               "blocking mode, and a closed or shut-down channel raises at once; the model is tied to channel.py by a "
               "differential run of the model's own definitions (vm_compute) against a real Channel on scripted and "
-              "live histories every run.")
+              "live histories every run, and by gen/c25.py (message numbers, the 64-byte packet overhead, the shape of "
+              "the sendall loops and of the deadline bookkeeping, read from the source, fail closed).")
 LEVEL_NOTE = ("Trusted: Coq kernel + vm_compute; hand-written model coq/Model/C25.v validated by the correspondence "
               "run; atomicity of the critical sections (events are applied only while the sender is outside the lock "
               "or asleep in out_buffer_cv.wait — this is what the channel lock gives, it is not proved); the channel "
               "is active; 'Blocked' = asleep with no further wake-up is the environment's choice (liveness of the "
-              "peer is not claimed).  The model is of the repaired sendall (fixes/C25-*.diff).")
-TECHNIQUE = "Coq proof (induction on fuel / wake-up lists) + vm_compute differential correspondence + watchdog oracle"
+              "peer is not claimed).  Wake-up delivery to SEVERAL sleeping senders (notify_all) is outside the "
+              "single-sender model: it is checked on the real code only (multi-sender live scenario, oracle "
+              "blocked-sender-not-woken), as is the pinned-clock deadline oracle timed-send-outlives-timeout.")
+TECHNIQUE = "Coq proof (induction on fuel / wake-up lists) + source translator + vm_compute differential correspondence + watchdog / multi-thread oracles"
 
 MSG_DATA, MSG_EXT = 94, 95
 EVENTS = ["EvAdjust", "EvClose", "EvPeerClose", "EvUnlink", "EvShutWrite", "EvPeerEof"]
@@ -473,6 +476,101 @@ def run_live(ctx, timeout, prior, stderr, window, helper):
     return case, model_case, obs
 
 
+def safe_mm(ctx, run_fn, case_type, cases):
+    """model evaluation guarded: a model that cannot be evaluated is a disagreement, not an abort, so the
+    implementation-level oracle keeps running"""
+    try:
+        return ctx.model_mismatches(run_fn, case_type, cases)
+    except RuntimeError as e:
+        ctx.disagree("the model could not be evaluated: %s" % str(e)[:300])
+        return []
+
+
+def multi_sender(ctx, nthreads, timeout, event, watchdog=5.0):
+    """>= 2 real threads asleep in _wait_for_send_window on a closed window (sendall and sendall_stderr
+    alternately), on an unmodified Channel with the real Condition.  Once every one of them is registered as a
+    waiter of out_buffer_cv, ONE event is delivered: a window adjust large enough for all of them (every sender must
+    then finish, having handed over all its data), or close / transport loss (every sender must raise socket.error).
+    A sender still asleep (or timed out) afterwards is blocked although it could proceed."""
+    chan, tr = new_channel(0, 4096, timeout)
+    datas = [bytes([65 + i]) * (7 + 3 * i) for i in range(nthreads)]
+    res = {}
+
+    def sender(i):
+        try:
+            fn = chan.sendall_stderr if i % 2 else chan.sendall
+            res[i] = ("ok", fn(datas[i]))
+        except BaseException as e:  # noqa
+            res[i] = ("exc", e)
+
+    ths = [threading.Thread(target=sender, args=(i,), daemon=True) for i in range(nthreads)]
+    for th in ths:
+        th.start()
+    waiters = getattr(chan.out_buffer_cv, "_waiters", None)
+    deadline = _realtime.time() + 10.0
+    while _realtime.time() < deadline:
+        if waiters is not None and len(waiters) >= nthreads:
+            break
+        _realtime.sleep(0.005)
+    if waiters is None:
+        _realtime.sleep(0.5)
+    asleep = len(waiters) if waiters is not None else nthreads
+    apply_event(chan, event)
+    t_end = _realtime.time() + watchdog
+    for th in ths:
+        th.join(max(0.0, t_end - _realtime.time()))
+    stuck = [i for i, th in enumerate(ths) if th.is_alive()]
+    # let stragglers go so that no thread outlives the check
+    chan.lock.acquire()
+    try:
+        chan.closed = True
+        chan.out_buffer_cv.notify_all()
+    finally:
+        chan.lock.release()
+    for th in ths:
+        th.join(2.0)
+    case = {"multi": True, "threads": nthreads, "timeout": timeout, "event": list(event)}
+    if asleep < nthreads:
+        return "setup", case, "only %d of %d senders were asleep before the event" % (asleep, nthreads)
+    codes = {i: (99 if i in stuck else classify(*res.get(i, ("exc", RuntimeError("no result"))))) for i in range(nthreads)}
+    got = {MSG_DATA: b"".join(p for t, p in tr.data if t == MSG_DATA),
+           MSG_EXT: b"".join(p for t, p in tr.data if t == MSG_EXT)}
+    obs = {"outcome_per_sender": codes, "still_asleep": stuck, "bytes_handed_over": sum(len(v) for v in got.values())}
+    if event[0] == "EvAdjust":
+        if stuck or any(c != 0 for c in codes.values()):
+            return "fail", case, ("blocked-sender-not-woken",
+                                  "%d senders were asleep on a closed window; one window adjust of %d bytes (enough for "
+                                  "all of them) arrived; not every sender woke up and finished" % (nthreads, event[1]),
+                                  obs)
+        # every byte of every sender handed over, per stream, each sender's bytes in order
+        for i in range(nthreads):
+            stream = got[MSG_EXT if i % 2 else MSG_DATA]
+            if bytes(b for b in stream if b == datas[i][0]) != datas[i]:
+                return "fail", case, ("sendall-returned-with-data-unsent", "a woken sender returned although not all "
+                                      "of its bytes were handed to the transport", obs)
+    else:
+        if stuck or any(c != 6 for c in codes.values()) :
+            return "fail", case, ("blocked-sender-not-released-by-close",
+                                  "%d senders were asleep on a closed window; the channel was closed / lost; not every "
+                                  "sender raised socket.error" % nthreads, obs)
+    return "ok", case, obs
+
+
+def multi_sender_runs(ctx):
+    plan = [(2, None, ("EvAdjust", 1000)), (3, None, ("EvAdjust", 5000)), (2, 30.0, ("EvAdjust", 1000)),
+            (4, 30.0, ("EvAdjust", 100000)), (2, None, ("EvClose",)), (3, 30.0, ("EvUnlink",)),
+            (2, None, ("EvPeerClose",))]
+    for nthreads, timeout, event in plan:
+        kind, case, info = multi_sender(ctx, nthreads, timeout, event)
+        if kind == "setup":
+            kind, case, info = multi_sender(ctx, nthreads, timeout, event)
+        ctx.count(("multi", nthreads, timeout, event), kind="multi-sender")
+        if kind == "setup":
+            ctx.notes.append(info)
+        elif kind == "fail":
+            ctx.fail(info[0], info[1], case=case, expected="every sender proceeds", observed=info[2])
+
+
 def run(ctx):
     rng = ctx.rng
     scale = 8 if ctx.thorough else 1
@@ -510,7 +608,7 @@ def run(ctx):
         if hangs >= 3:
             ctx.notes.append("stopped generating after 3 hangs (each costs the watchdog time)")
             break
-    bad = ctx.model_mismatches("run_sendall", "((bool * chan) * (list Z * list round))",
+    bad = safe_mm(ctx, "run_sendall", "((bool * chan) * (list Z * list round))",
                                [(coq_case(c), exp) for c, exp in cases])
     for i in bad[:3]:
         ctx.disagree("sendall differs from the model", case=cases[i][0], impl=cases[i][1])
@@ -561,7 +659,7 @@ def run(ctx):
                 ctx.fail("send-hang", "send does not return", case=case)
         scases.append((case, exp))
         ctx.count(("send", case_key(case)), nontrivial=bool(data), kind="send")
-    bad = ctx.model_mismatches("run_send", "((bool * chan) * (list Z * round))",
+    bad = safe_mm(ctx, "run_send", "((bool * chan) * (list Z * round))",
                                [(coq(((c["stderr"], coq_chan(c)),
                                       (list(c["data"]),
                                        ([strip_ev(e) for e in c["rounds"][0][0]],
@@ -591,6 +689,7 @@ def run(ctx):
                     lhangs += 1
             if lhangs >= 3:
                 break
+        multi_sender_runs(ctx)
         # one real timed wait that runs out (0.2 s)
         chan, tr = new_channel(0, 69, 0.2)
         kind, val, th = watchdog(lambda: chan.sendall(b"abc"), WATCHDOG)
@@ -601,7 +700,7 @@ def run(ctx):
                      observed=None if kind != "exc" else type(val).__name__)
         if kind == "hang":
             chan._unlink()
-        bad = ctx.model_mismatches("run_sendall", "((bool * chan) * (list Z * list round))",
+        bad = safe_mm(ctx, "run_sendall", "((bool * chan) * (list Z * list round))",
                                    [(coq_case(m), exp) for _, m, exp in lcases])
         for i in bad[:3]:
             ctx.disagree("live sendall differs from the model", case=lcases[i][0], impl=lcases[i][2])
@@ -611,6 +710,15 @@ def run(ctx):
 
 def replay(ctx, rep):
     case = rep.get("case") or {}
+    if isinstance(case, dict) and case.get("multi"):
+        if ctx.proof is None:
+            ctx.prove()
+        kind, c, info = multi_sender(ctx, case["threads"], case["timeout"], tuple(case["event"]))
+        ctx.count(("replay", repr(c)))
+        ctx.count(("replay2", repr(c)))
+        if kind == "fail":
+            ctx.fail(info[0], info[1], case=c, expected="every sender proceeds", observed=info[2])
+        return
     if not isinstance(case, dict) or "data" not in case or case.get("live"):
         run(ctx)
         return
@@ -624,7 +732,7 @@ def replay(ctx, rep):
         ctx.prove()
     obs = run_one(ctx, case, "replay")
     ctx.count(("replay2", case_key(case)))
-    bad = ctx.model_mismatches("run_sendall", "((bool * chan) * (list Z * list round))",
+    bad = safe_mm(ctx, "run_sendall", "((bool * chan) * (list Z * list round))",
                                [(coq_case(case), canon(obs, case["data"]))])
     if bad:
         ctx.disagree("sendall differs from the model", case=case, impl=canon(obs, case["data"]))
